@@ -1,9 +1,57 @@
-(* C20 — Flush writes every log entry logged before it, once and in order. Statements only. *)
+(* C20 — Flush writes every log entry logged before it, once and in order. Statements only.
+   [run cap init ls = Some s]: ls is a schedule of the repaired logger (any interleaving of any number of
+   logging goroutines, the flusher and the FlushLogger caller; any queue capacity) leading to state s.
+   rets_of / calls_of / writes_of: the entries whose logging call returned / began / that were handed to
+   their writer (one label = one Write of one whole entry on the entry's writer), in schedule order. *)
 From Coq Require Import List NArith Bool.
 From TarsV Require Import Conc.Flush Conc.FlushProofs.
 Import ListNotations.
 Open Scope N_scope.
 
-Theorem C20_placeholder : accepts [ECall (mkE 0 0 0); ERet (mkE 0 0 0); EFlushCall; EFlushRet true] = false.
-Proof. exact FlushProofs.rejects_lossy_trace. Qed.
-Print Assumptions C20_placeholder.
+(* every entry whose logging call returned before FlushLogger was called has been written when FlushLogger
+   returns on the flusher's acknowledgement ... *)
+Theorem C20_flush_complete : forall cap l1 l2 l3 s,
+  run cap init (l1 ++ FlushCall :: l2 ++ FlushRet true :: l3) = Some s ->
+  forall e, In e (rets_of l1) -> In e (writes_of (l1 ++ FlushCall :: l2)).
+Proof. exact FlushProofs.flush_complete. Qed.
+
+(* ... exactly once (no Write is repeated anywhere in the schedule, and none follows the acknowledgement) *)
+Theorem C20_written_once : forall cap ls s, run cap init ls = Some s -> NoDup (writes_of ls).
+Proof. exact FlushProofs.writes_once. Qed.
+Theorem C20_no_write_after_ack : forall cap l1 l3 s,
+  run cap init (l1 ++ FlushRet true :: l3) = Some s -> writes_of l3 = [].
+Proof. exact FlushProofs.no_write_after_ack. Qed.
+
+(* entries of one goroutine reach the writers in the order they were logged *)
+Theorem C20_per_goroutine_order : forall cap ls s, run cap init ls = Some s ->
+  forall a e1 b e2 c, writes_of ls = a ++ e1 :: b ++ e2 :: c -> eg e1 = eg e2 -> en e1 < en e2.
+Proof. exact FlushProofs.writes_per_goroutine_order. Qed.
+
+(* across goroutines: a call that returned before another began is written first *)
+Theorem C20_fifo_real_time : forall cap a e1 b e2 c s x y,
+  run cap init (a ++ LogRet e1 :: b ++ LogCall e2 :: c) = Some s ->
+  writes_of (a ++ LogRet e1 :: b ++ LogCall e2 :: c) = x ++ e2 :: y -> In e1 x.
+Proof. exact FlushProofs.fifo_real_time. Qed.
+
+(* a Write hands over exactly an entry submitted by an earlier logging call (same goroutine, number, writer) *)
+Theorem C20_write_was_logged : forall cap a l b s e,
+  run cap init (a ++ l :: b) = Some s -> writes_of [l] = [e] -> In e (calls_of a).
+Proof. exact FlushProofs.write_was_logged. Qed.
+
+(* nothing is dropped: everything enqueued is written or still queued, in order *)
+Theorem C20_conservation : forall cap ls s, run cap init ls = Some s -> hist s = writes_of ls ++ q s.
+Proof. exact FlushProofs.conservation. Qed.
+
+(* after the request the flusher always has a step until it has acknowledged *)
+Theorem C20_flusher_not_blocked_after_request : forall cap s,
+  req s = true -> fp s <> Done -> exists l s', flusher_label l /\ step cap s l = Some s'.
+Proof. exact FlushProofs.flusher_not_blocked_after_request. Qed.
+
+Print Assumptions C20_flush_complete.
+Print Assumptions C20_written_once.
+Print Assumptions C20_no_write_after_ack.
+Print Assumptions C20_per_goroutine_order.
+Print Assumptions C20_fifo_real_time.
+Print Assumptions C20_write_was_logged.
+Print Assumptions C20_conservation.
+Print Assumptions C20_flusher_not_blocked_after_request.
